@@ -53,12 +53,24 @@ Proof.
   cbn. constructor; [exact E|apply IH; exact R].
 Qed.
 
+Lemma rt_nodes_cancel : forall p q,
+  Permutation (rt_nodes q) (fst (sq_cancel p q) ++ rt_nodes (snd (sq_cancel p q))).
+Proof.
+  intros p q. unfold sq_cancel. generalize 0 as carry. induction q as [|[t n] rest IH]; intros carry.
+  - apply Permutation_refl.
+  - cbn [sq_cancel_go]. destruct (p n).
+    + specialize (IH (carry + t)). destruct (sq_cancel_go p (carry + t) rest) as [rm q'].
+      cbn [fst snd rt_nodes map app] in *. apply perm_skip. exact IH.
+    + specialize (IH 0). destruct (sq_cancel_go p 0 rest) as [rm q'].
+      cbn [fst snd rt_nodes map app] in *. apply Permutation_cons_app. exact IH.
+Qed.
+
 (* ------------------------------------------------------------------ projection on one message *)
 Inductive rt_tag := PTx (b : list Z) | PNack (r c mx : Z) | PAcked.
 
 Definition rt_proj1 (u : Z) (o : rt_out) : list rt_tag :=
   match o with
-  | RoTx _ u' _ b => if u' =? u then [PTx b] else []
+  | RoTx _ u' _ b _ _ => if u' =? u then [PTx b] else []
   | RoNack _ u' _ r _ c mx => if u' =? u then [PNack r c mx] else []
   | RoAcked _ u' => if u' =? u then [PAcked] else []
   | _ => []
@@ -69,13 +81,14 @@ Lemma rt_proj_app : forall u a b, rt_proj u (a ++ b) = rt_proj u a ++ rt_proj u 
 Proof. intros. unfold rt_proj. apply flat_map_app. Qed.
 
 (* a closed history: transmissions of the same bytes, then exactly one outcome *)
-(* an outcome after j retransmissions: removed by an ACK, or one NACK call - reason RST, or
-   reason TOO_MANY_RETRIES and then j is exactly the message's max_retransmit *)
+(* an outcome after j retransmissions: removed by an ACK, or one NACK call - and if its reason is
+   TOO_MANY_RETRIES then j is exactly the message's max_retransmit (the other reasons: RST from
+   the peer, or the reason given to coap_session_disconnected) *)
 Definition rt_outcome_ok (j : nat) (o : rt_tag) : Prop :=
   match o with
   | PAcked => True
   | PNack r c mx => Z.of_nat j = c /\ 0 <= c <= mx /\ mx <= 255 /\
-                    (r = rt_NACK_RST \/ (r = rt_NACK_TOO_MANY_RETRIES /\ c = mx))
+                    (r = rt_NACK_TOO_MANY_RETRIES -> c = mx)
   | PTx _ => False
   end.
 Definition rt_closed (l : list rt_tag) : Prop :=
@@ -126,7 +139,7 @@ Qed.
 Lemma rt_rel_add : forall tr k ns t s m b T mx,
   0 <= mx <= 255 ->
   rt_rel tr k ns ->
-  rt_rel (tr ++ [RoTx t k s b; RoSent m]) (k + 1) (sq_mk_node k s m 0 T mx b :: ns).
+  rt_rel (tr ++ [RoTx t k s b 0 T; RoSent m]) (k + 1) (sq_mk_node k s m 0 T mx b :: ns).
 Proof.
   intros tr k ns t s m b T mx Hmx (K & D & F & C).
   assert (Fresh : ~ In k (map qn_uid ns)).
@@ -152,7 +165,7 @@ Qed.
 Lemma rt_rel_bump : forall tr k n ns t,
   qn_cnt n < qn_max n ->
   rt_rel tr k (n :: ns) ->
-  rt_rel (tr ++ [RoTx t (qn_uid n) (qn_sess n) (qn_bytes n)]) k
+  rt_rel (tr ++ [RoTx t (qn_uid n) (qn_sess n) (qn_bytes n) ((qn_cnt n + 1) mod 256) (qn_timeout n)]) k
          (sq_mk_node (qn_uid n) (qn_sess n) (qn_mid n) ((qn_cnt n + 1) mod 256) (qn_timeout n)
                      (qn_max n) (qn_bytes n) :: ns).
 Proof.
@@ -198,6 +211,39 @@ Proof.
       split; [reflexivity|]. split; [lia|exact Ho'].
     + rewrite Pother by exact Ne. rewrite app_nil_r. apply C. cbn.
       intros [X|X]; [apply Ne; congruence|apply Hu; exact X].
+Qed.
+
+(* several nodes leave the queue, each with the ghost mark of an implicit acknowledgement *)
+Lemma rt_rel_drop_acked : forall t rm tr k ns,
+  rt_rel tr k (rm ++ ns) ->
+  rt_rel (tr ++ map (fun n => RoAcked t (qn_uid n)) rm) k ns.
+Proof.
+  induction rm as [|n rm IH]; intros tr k ns R; cbn [map app] in *.
+  - rewrite app_nil_r. exact R.
+  - replace (tr ++ RoAcked t (qn_uid n) :: map (fun n0 => RoAcked t (qn_uid n0)) rm)
+      with ((tr ++ [RoAcked t (qn_uid n)]) ++ map (fun n0 => RoAcked t (qn_uid n0)) rm)
+      by (rewrite <- app_assoc; reflexivity).
+    apply IH. eapply rt_rel_drop with (n := n) (tag := PAcked); [intros _; exact I| | |exact R].
+    + cbn. rewrite Z.eqb_refl. reflexivity.
+    + intros u Hu. cbn. assert (X : (qn_uid n =? u) = false) by lia. rewrite X. reflexivity.
+Qed.
+
+(* several nodes leave the queue, each with one NACK call of the same reason *)
+Lemma rt_rel_drop_nacked : forall t reason rm tr k ns,
+  reason <> rt_NACK_TOO_MANY_RETRIES ->
+  rt_rel tr k (rm ++ ns) ->
+  rt_rel (tr ++ map (rt_nack_of t reason) rm) k ns.
+Proof.
+  intros t reason. induction rm as [|n rm IH]; intros tr k ns Hr R; cbn [map app] in *.
+  - rewrite app_nil_r. exact R.
+  - replace (tr ++ rt_nack_of t reason n :: map (rt_nack_of t reason) rm)
+      with ((tr ++ [rt_nack_of t reason n]) ++ map (rt_nack_of t reason) rm)
+      by (rewrite <- app_assoc; reflexivity).
+    apply IH; [exact Hr|].
+    eapply rt_rel_drop with (n := n) (tag := PNack reason (qn_cnt n) (qn_max n)); [| | |exact R].
+    + intros (A & B & M & O). cbn. repeat split; try lia; intros X; contradiction.
+    + cbn. rewrite Z.eqb_refl. reflexivity.
+    + intros u Hu. cbn. assert (X : (qn_uid n =? u) = false) by lia. rewrite X. reflexivity.
 Qed.
 
 (* ------------------------------------------------------------------ the machine keeps it *)
@@ -254,6 +300,7 @@ Definition rt_ev_ok (ev : rt_event) : Prop :=
   match ev with
   | RtAdvance dt => 0 <= dt
   | RtSend _ _ _ cfg _ => 1 <= rc_max cfg <= 255
+  | RtDisconnect _ reason => reason <> rt_NACK_TOO_MANY_RETRIES /\ reason <> rt_NACK_ICMP_ISSUE
   | _ => True
   end.
 
@@ -263,7 +310,7 @@ Lemma rt_step_rel : forall st ev tr,
   let (st', o) := rt_step st ev in
   rt_rel (tr ++ o) (rs_uid st') (rt_nodes (rs_q st')).
 Proof.
-  intros st ev tr Hev R. destruct ev as [dt|s m b cfg r| |s m|s m|]; cbn [rt_step].
+  intros st ev tr Hev R. destruct ev as [dt|s m b cfg r| |s m|s m|s m tok|s reason|]; cbn [rt_step].
   - cbn. rewrite app_nil_r. exact R.
   - unfold rt_send. set (T := fp_calc_timeout _ _ _ _ _).
     set (n := sq_mk_node _ _ _ _ _ _ _). set (st1 := rt_mk_state _ _ _ _).
@@ -293,7 +340,7 @@ Proof.
                                          (qn_cnt n) (qn_max n)])
                           (rs_uid st) (rt_nodes q')).
       { eapply rt_rel_drop with (n := n) (tag := PNack rt_NACK_RST (qn_cnt n) (qn_max n));
-          [intros (A & B & M & O); cbn; repeat split; try lia; left; reflexivity| | |].
+          [intros (A & B & M & O); cbn; repeat split; try lia; intros X; discriminate| | |].
         - cbn. rewrite Z.eqb_refl. reflexivity.
         - intros u Hu. cbn. assert (X : (qn_uid n =? u) = false) by lia. rewrite X. reflexivity.
         - eapply rt_rel_perm; [exact P|exact R]. }
@@ -305,6 +352,20 @@ Proof.
       pose proof (rt_fire_rel (rt_budget (rs_q st)) st _ R1) as H.
       destruct (rt_fire (rt_budget (rs_q st)) st) as [st1 o]. destruct H as [H _].
       rewrite <- app_assoc in H. exact H.
+  - unfold rt_non, rt_fire_all.
+    pose proof (rt_nodes_cancel (rt_tok_match s tok) (rs_q st)) as P.
+    destruct (sq_cancel (rt_tok_match s tok) (rs_q st)) as [rm q']. cbn [fst snd] in P.
+    assert (R1 : rt_rel (tr ++ map (fun n => RoAcked (rs_now st) (qn_uid n)) rm) (rs_uid st) (rt_nodes q')).
+    { apply rt_rel_drop_acked. eapply rt_rel_perm; [exact P|exact R]. }
+    pose proof (rt_fire_rel (rt_budget (rs_q (rt_set_q st q'))) (rt_set_q st q') _ R1) as H.
+    destruct (rt_fire _ (rt_set_q st q')) as [st1 o]. destruct H as [H _].
+    rewrite <- app_assoc in H. exact H.
+  - unfold rt_disconnect.
+    pose proof (rt_nodes_cancel (rt_sess_match s) (rs_q st)) as P.
+    destruct (sq_cancel (rt_sess_match s) (rs_q st)) as [rm q']. cbn [fst snd rt_set_q rs_uid rs_q] in *.
+    destruct rm as [|n rm].
+    + apply rt_rel_neutral; [intros u; reflexivity|]. eapply rt_rel_perm; [exact P|exact R].
+    + apply rt_rel_drop_nacked; [cbn in Hev; tauto|]. eapply rt_rel_perm; [exact P|exact R].
   - apply rt_rel_neutral; [intros u; reflexivity|exact R].
 Qed.
 
@@ -397,4 +458,35 @@ Proof.
   split; [lia|]. split; [lia|]. split; [exists l1, l2, d; auto|].
   cbn [rt_step]. unfold rt_ack, rt_rst. rewrite H.
   destruct (rt_fire_all (rt_set_q st q')); split; reflexivity.
+Qed.
+
+(* ------------------------------------------------------------------ session disconnect *)
+(* coap_session_disconnected: exactly the session's messages leave the queue, each with one NACK
+   call, in queue order; the messages of all other sessions keep deadline and place *)
+Theorem rt_disconnect_spec : forall st s reason,
+  let (st', o) := rt_disconnect st s reason in
+  sq_abs (rs_base st') (rs_q st') =
+    filter (fun e => negb (rt_sess_match s (snd e))) (sq_abs (rs_base st) (rs_q st)) /\
+  rs_now st' = rs_now st /\
+  let rm := filter (rt_sess_match s) (rt_nodes (rs_q st)) in
+  o = match rm with
+      | [] => [RoNackNoPdu (rs_now st) s reason 0]
+      | _ => map (rt_nack_of (rs_now st) reason) rm
+      end.
+Proof.
+  intros st s reason. unfold rt_disconnect.
+  destruct (sq_abs_cancel (rt_sess_match s) (rs_q st) (rs_base st)) as [A B].
+  destruct (sq_cancel (rt_sess_match s) (rs_q st)) as [rm q']. cbn [fst snd] in *.
+  cbn [rt_set_q rs_base rs_q rs_now]. split; [exact A|]. split; [reflexivity|].
+  unfold rt_nodes. rewrite <- B. reflexivity.
+Qed.
+
+(* before the repair the first queued message of the session was reported twice *)
+Theorem rt_disconnect_old_double_nack : exists st s reason u,
+  reason <> rt_NACK_TOO_MANY_RETRIES /\ reason <> rt_NACK_ICMP_ISSUE /\
+  rt_proj u (snd (rt_disconnect_old st s reason)) = [PNack reason 0 4; PNack reason 0 4].
+Proof.
+  exists (rt_mk_state 600 0 [(2000, sq_mk_node 0 0 10 0 2000 4 []); (500, sq_mk_node 1 1 20 0 2000 4 [])] 2),
+         0, 1, 0.
+  split; [discriminate|]. split; [discriminate|]. vm_compute. reflexivity.
 Qed.
